@@ -84,6 +84,8 @@ package bigbuff
 //@ func var:waitDuration
 //@   props C18
 //@   nopanic always : true
+//@   # the back off ends with the caller's context
+//@   cancellable byctx : ctxdone(ctx)
 //@   ensures waited : d > 0 ==> icalls("time.NewTimer") == 1 && timerstopped(timer)
 //@   ensures skipped : d <= 0 ==> icalls("time.NewTimer") == 0
 
@@ -191,6 +193,8 @@ package bigbuff
 //@   loop 0 invariant ticking : ticker != nil ==> !timerstopped(ticker)
 //@   loop 0 pending-defer ticker : ticker != nil
 //@   ensures stopped : ticker != nil ==> timerstopped(ticker)
+//@   # between polls Get waits for nothing that outlives the consumer's context
+//@   cancellable byctx : ctxdone(c.ctx)
 //@   loop 0 invariant unset : value == nil
 //@   ensures step : err == nil ==> value == taken(c, old(cursor(c))) && cursor(c) == old(cursor(c)) + 1 && c.k == old(c.k)
 //@   ensures replay : err == nil && old(c.rollback) > 0 ==> c.rollback == old(c.rollback) - 1 && unchanged(c.buffer)
@@ -377,6 +381,8 @@ package bigbuff
 //@   # the loop only ever waits on a ticker that is still running (it is stopped by the deferred call, at exit)
 //@   loop 0 invariant ticking : ticker != nil && !timerstopped(ticker)
 //@   at-call send#0 fresh : lasterr(ctx) == nil
+//@   # the producer never waits without also waiting for the cancellation: it cannot outlive the context at any wait
+//@   cancellable byctx : ctxdone(ctx)
 //@   ensures closedonce : closed(c)
 //@   ensures stopped : ticker != nil ==> timerstopped(ticker)
 //@   ensures bound : sent(c) <= old(sent(c)) + count
@@ -586,6 +592,8 @@ package bigbuff
 //@   maypanic
 //@   props C05 C12
 //@   modular
+//@   # the watcher waits for nothing but the cancellation of the context it was started for
+//@   cancellable byctx : ctxdone(ctx)
 //@   requires wired : cond != nil && ctx != nil
 //@   at-call (*sync.Cond).Broadcast#0 locked : cond.L != nil ==> heldcond(cond)
 //@   at-call (*sync.Cond).Broadcast#0 aftercancel : cancelled(ctx)
@@ -901,6 +909,8 @@ package bigbuff
 //@   at-call dynamic#1 work : lasterr(ctx) == nil && arg0 == resolve && calls(resolve) == 0
 //@   ensures once : (calls(value) == 1 && calls(resolve) == 0) || (calls(value) == 0 && calls(resolve) == 1)
 //@   ensures stopped : timer != nil ==> timerstopped(timer)
+//@   # the padding wait ends with the limiter's context
+//@   cancellable byctx : ctxdone(ctx)
 
 //@ func (*Exclusive).CallWithOptions
 //@   props C09 C10
@@ -1448,6 +1458,8 @@ package bigbuff
 //@   modular
 //@   explore-panics
 //@   requires wired : x != nil && stop != nil && ctx != nil && yield != stop
+//@   # every wait of the iterator also waits for the subscriber's context
+//@   cancellable byctx : ctxdone(ctx)
 //@   # stop is the function returned by context.AfterFunc: it does not panic (A-LIB)
 //@   total stop
 //@   at-call dynamic#2 acked : calledsince("(*ChanPubSub).Wait") && arg0 == lastrecv(x.ping.C)
